@@ -103,8 +103,8 @@ Proof.
   induction f; simpl; intros. inversion H; subst; auto 10.
   destruct (first_zombie (kids s)) as [[z rest]|]. 2: (inversion H; subst; auto 10).
   destruct (reexec s =? c_pid z). apply IHf in H. simpl in H. auto.
-  destruct (Z.shiftr (status_of z) 8 =? worker_boot_error). inversion H; subst; simpl; auto 10.
-  destruct (Z.shiftr (status_of z) 8 =? app_load_error). inversion H; subst; simpl; auto 10.
+  destruct ((Z.shiftr (status_of z) 8 =? worker_boot_error) && raises _). inversion H; subst; simpl; auto 10.
+  destruct ((Z.shiftr (status_of z) 8 =? app_load_error) && raises _). inversion H; subst; simpl; auto 10.
   apply IHf in H. simpl in H. auto.
 Qed.
 
